@@ -100,6 +100,12 @@ impl Params {
     }
 }
 
+impl MatSpec {
+    pub fn new(log_h: usize, width: usize, two_points: bool) -> Self {
+        MatSpec { log_h, width, two_points, constant: false }
+    }
+}
+
 /// One committed matrix: trace domain of size `2^log_h` (natural domain, as in a STARK), `width`
 /// columns, opened at `zeta` and — if `two_points` — also at `zeta·g` (g = domain generator).
 #[derive(Clone, Debug, PartialEq, Eq)]
@@ -107,6 +113,9 @@ pub struct MatSpec {
     pub log_h: usize,
     pub width: usize,
     pub two_points: bool,
+    /// every column is a constant polynomial (its quotient `(p(z) − p(X))/(z − X)` is identically
+    /// zero) — only used by the foreign-schedule probes
+    pub constant: bool,
 }
 
 /// Commitment rounds (one MMCS commitment each) of matrices.
@@ -123,7 +132,7 @@ impl PcsShape {
             .iter()
             .map(|ms| {
                 ms.iter()
-                    .map(|m| format!("{}x{}{}", m.log_h, m.width, if m.two_points { "n" } else { "" }))
+                    .map(|m| format!("{}x{}{}{}", m.log_h, m.width, if m.two_points { "n" } else { "" }, if m.constant { "c" } else { "" }))
                     .collect::<Vec<_>>()
                     .join(",")
             })
@@ -132,7 +141,7 @@ impl PcsShape {
     }
     pub fn to_json(&self) -> Value {
         json!({"params": self.params.to_json(),
-               "rounds": self.rounds.iter().map(|ms| ms.iter().map(|m| json!([m.log_h, m.width, m.two_points])).collect::<Vec<_>>()).collect::<Vec<_>>()})
+               "rounds": self.rounds.iter().map(|ms| ms.iter().map(|m| json!([m.log_h, m.width, m.two_points, m.constant])).collect::<Vec<_>>()).collect::<Vec<_>>()})
     }
     pub fn from_json(v: &Value) -> Option<PcsShape> {
         let params = Params::from_json(&v["params"])?;
@@ -144,6 +153,7 @@ impl PcsShape {
                     log_h: m.get(0)?.as_u64()? as usize,
                     width: m.get(1)?.as_u64()? as usize,
                     two_points: m.get(2)?.as_bool()?,
+                    constant: m.get(3).and_then(|x| x.as_bool()).unwrap_or(false),
                 });
             }
             rounds.push(ms);
@@ -204,6 +214,7 @@ fn matrix(seed: u64, round: usize, mat: usize, m: &MatSpec) -> RowMajorMatrix<F>
     let mut v = Vec::with_capacity(rows * m.width);
     for r in 0..rows {
         for c in 0..m.width {
+            let r = if m.constant { 0 } else { r };
             let k = splitmix(seed ^ splitmix(((round as u64) << 48) | ((mat as u64) << 32) | ((r as u64) << 8) | c as u64));
             v.push(F::from_u64(1 + k % (MODULUS - 1)));
         }
@@ -299,6 +310,12 @@ pub enum Dev {
     /// claimed evaluation `+1` before it is observed (alpha, the reduced openings and the whole
     /// FRI proof are derived from the wrong claim)
     OpenedValue { round: usize, mat: usize, point: usize, col: usize },
+    /// foreign folding schedule: commit phase `layer` folds with `log_arity` (≤ max_log_arity,
+    /// ≠ the honest prover's choice); a smaller arity gives another valid schedule, a larger one
+    /// jumps over an input height whose reduced opening is then never rolled in (dropped by this
+    /// prover; later inputs are rolled in as usual). `skips_zero`: every jumped-over matrix is
+    /// constant, i.e. the dropped reduced opening is identically zero.
+    Arity { layer: usize, log_arity: usize, skips_zero: bool },
 }
 
 impl Dev {
@@ -310,6 +327,8 @@ impl Dev {
             Dev::CommitPow { .. } => "mal:commit_pow".into(),
             Dev::QueryPow => "mal:query_pow".into(),
             Dev::OpenedValue { point, .. } => format!("mal:opened_value/point{point}"),
+            Dev::Arity { skips_zero: true, .. } => "mal:arity_jumps_over_zero_rollin".into(),
+            Dev::Arity { .. } => "mal:arity".into(),
         }
     }
     pub fn show(&self) -> String {
@@ -323,6 +342,7 @@ impl Dev {
             Dev::CommitPow { phase } => json!({"commit_pow": phase}),
             Dev::QueryPow => json!({"query_pow": true}),
             Dev::OpenedValue { round, mat, point, col } => json!({"opened_value": [round, mat, point, col]}),
+            Dev::Arity { layer, log_arity, skips_zero } => json!({"arity": [layer, log_arity, *skips_zero as usize]}),
         }
     }
     pub fn from_json(v: &Value) -> Option<Dev> {
@@ -344,6 +364,9 @@ impl Dev {
         }
         if let Some(a) = v.get("opened_value") {
             return Some(Dev::OpenedValue { round: g(a, 0)?, mat: g(a, 1)?, point: g(a, 2)?, col: g(a, 3)? });
+        }
+        if let Some(a) = v.get("arity") {
+            return Some(Dev::Arity { layer: g(a, 0)?, log_arity: g(a, 1)?, skips_zero: g(a, 2)? != 0 });
         }
         None
     }
@@ -464,8 +487,17 @@ pub fn mal_open(
         }
         let log_current_height = log2_strict_usize(folded.len());
         let next_input_log_height = inputs_iter.peek().map(|v| log2_strict_usize(v.len()));
-        let log_arity =
+        let mut log_arity =
             compute_log_arity_for_round(log_current_height, next_input_log_height, log_final_height, params.max_log_arity);
+        if let Dev::Arity { layer: l, log_arity: a, .. } = dev {
+            if *l == layer {
+                if *a == log_arity || *a == 0 || *a > params.max_log_arity || *a > log_current_height - log_final_height {
+                    return Err("deviation does not apply".into());
+                }
+                log_arity = *a;
+                applied = true;
+            }
+        }
         log_arities.push(log_arity);
         let leaves = RowMajorMatrix::new(folded, 1 << log_arity);
         let (commit, prover_data) = params.mmcs.commit_matrix(leaves);
@@ -487,6 +519,10 @@ pub fn mal_open(
             leaves.as_view(),
         );
         data.push(prover_data);
+        // inputs a foreign schedule jumped over are dropped (never rolled in); no-op otherwise
+        while inputs_iter.peek().is_some_and(|v| v.len() > folded.len()) {
+            inputs_iter.next();
+        }
         if let Some(v) = inputs_iter.next_if(|v| v.len() == folded.len()) {
             let beta_pow = beta.exp_power_of_2(log_arity);
             for (c, x) in folded.iter_mut().zip(v) {
@@ -591,6 +627,25 @@ pub fn deviations(shape: &PcsShape, honest: &FriProofT, opened: &Opened, all_pos
         v.push(Dev::CommitPow { phase });
     }
     v.push(Dev::QueryPow);
+    // foreign schedules: at every layer of the honest schedule, every other admissible arity
+    {
+        let lb = shape.params.log_blowup;
+        let log_final = lb + shape.params.log_final_poly_len;
+        let mut cur = shape.log_max_lde_height();
+        for (layer, &honest_la) in log_arities.iter().enumerate() {
+            for a in 1..=shape.params.max_log_arity.min(cur - log_final) {
+                if a == honest_la {
+                    continue;
+                }
+                // LDE heights strictly between cur - a and cur are jumped over
+                let jumped: Vec<&MatSpec> =
+                    shape.rounds.iter().flatten().filter(|m| m.log_h + lb < cur && m.log_h + lb > cur - a).collect();
+                let skips_zero = !jumped.is_empty() && jumped.iter().all(|m| m.constant);
+                v.push(Dev::Arity { layer, log_arity: a, skips_zero });
+            }
+            cur -= honest_la;
+        }
+    }
     for (ri, round) in opened.iter().enumerate() {
         for (mi, mat) in round.iter().enumerate() {
             for (pi, ys) in mat.iter().enumerate() {
